@@ -154,6 +154,17 @@ func newFixture(hooks []fxHook) *fixture {
 	}
 	fxCurrent = fx
 	executor.ZZStandIn = fx.standIn
+	// every queue's handler is wrapped where the queue receives it (seam in task_queue.go), so
+	// begin / end of every task handling is recorded whichever way the queue was created
+	queue.ZZHandlerWrap = func(q *queue.TaskQueue, handler func(task.Task) queue.TaskResult) func(task.Task) queue.TaskResult {
+		return func(t task.Task) queue.TaskResult {
+			name := q.Name
+			fx.taskBegin(name, t)
+			r := handler(t)
+			fx.taskEnd(name, t, r)
+			return r
+		}
+	}
 
 	ctx, cancel := context.WithCancel(context.Background())
 	fx.cancel = cancel
@@ -175,6 +186,7 @@ func (fx *fixture) assemble() error {
 func (fx *fixture) close() {
 	fx.cancel()
 	executor.ZZStandIn = nil
+	queue.ZZHandlerWrap = nil
 	fxCurrent = nil
 	_ = os.RemoveAll(filepath.Dir(fx.dir))
 }
@@ -266,23 +278,6 @@ func (fx *fixture) standIn(cmd *exec.Cmd) (bool, []byte, []byte, int) {
 		run.EndVT = x.Now()
 	}
 	return true, nil, nil, out.Exit
-}
-
-// zzNewNamedQueue replaces the call sites of TaskQueues.NewNamedQueue in operator.go (see the
-// instrumenter configuration): the real queue is created with the real handler, wrapped
-// so that begin/end of every task handling is recorded per queue.
-func zzNewNamedQueue(tqs *queue.TaskQueueSet, name string, handler func(task.Task) queue.TaskResult) {
-	fx := fxCurrent
-	if fx == nil {
-		tqs.NewNamedQueue(name, handler)
-		return
-	}
-	tqs.NewNamedQueue(name, func(t task.Task) queue.TaskResult {
-		fx.taskBegin(name, t)
-		r := handler(t)
-		fx.taskEnd(name, t, r)
-		return r
-	})
 }
 
 func (fx *fixture) taskBegin(qname string, t task.Task) {
